@@ -250,6 +250,10 @@ func (h *Handler) dialPeers(upstream *Upstream, repl *caddy.Replacer, down *laye
 				h.FromConn(downConn, false)
 				_, err = h.WriteTo(up)
 			}
+			if err != nil {
+				// connected, but unusable without the header
+				_ = up.Close()
+			}
 		}
 
 		if err != nil {
